@@ -261,7 +261,8 @@ func zzH13_repeat() {
 	} else {
 		zzAssert(zzImplies(cv >= -1<<31, (err != nil) == (cv >= 1<<30)), "C13.repeat.error_iff_excessive")
 		// spec: "Negative values of n behave like zero"; counts below -2^31 are rejected
-		zzAssertExcept(zzImplies(cv < -1<<31, err == nil), "C13.repeat.negative_beyond_int32_is_zero", cv < -1<<31)
+		// (counts below -2^31 used to fail "repeat count too large": fixed in /repo)
+		zzAssert(zzImplies(cv < -1<<31, err == nil), "C13.repeat.negative_beyond_int32_is_zero")
 	}
 	if err != nil {
 		zzReach("end_err")
